@@ -1,7 +1,8 @@
 use core::panic;
 use std::vec;
 
-use laythe_core::{object::Class, utils::IdEmitter, value::Value, ObjRef};
+use laythe_core::{managed::Trace, object::Class, utils::IdEmitter, value::Value, ObjRef};
+use std::io::Write;
 
 /// The cache for property access and setting
 #[derive(Clone, Debug)]
@@ -163,6 +164,31 @@ impl InlineCache {
   fn set_invoke(&mut self, inline_slot: usize, value: Option<InvokeCache>) {
     debug_assert!(inline_slot < self.invoke.len());
     unsafe { *self.invoke.get_unchecked_mut(inline_slot) = value };
+  }
+}
+
+impl Trace for InlineCache {
+  /// The cached classes and methods are kept alive while a site remembers them. A site compares
+  /// classes by address, if a cached class could be collected a new class allocated at the same
+  /// address would be mistaken for it
+  fn trace(&self) {
+    for cache in self.property.iter().flatten() {
+      cache.class.trace();
+    }
+    for cache in self.invoke.iter().flatten() {
+      cache.class.trace();
+      cache.method.trace();
+    }
+  }
+
+  fn trace_debug(&self, log: &mut dyn Write) {
+    for cache in self.property.iter().flatten() {
+      cache.class.trace_debug(log);
+    }
+    for cache in self.invoke.iter().flatten() {
+      cache.class.trace_debug(log);
+      cache.method.trace_debug(log);
+    }
   }
 }
 
